@@ -1,10 +1,40 @@
 import Driver.Sexp
 import Pcore.Model.Reflect
-/-! Driver op for C18:  `refl <go-type> <go-value>` (syntax in harness/c18/c18.go).  Structs are not modelled: the
-    harness sends them as implementation-only `@refl` ops. -/
+/-! Driver ops for C18 (syntax in harness/c18/c18.go):
+      `refl <go-type> <go-value>`      wrap / derived type / IsInstance / ReflectTo
+      `obj <struct-type> <go-value>`   struct → object type → init hash → px.New (positional / named) → ReflectTo
+    Struct types are registered by the harness under the names T::S1, T::S2 … innermost first (`regOrder` computes the same
+    numbering from the type term). -/
 namespace C18
 open Sx Pcore.Reflect
 
+/-- tag `puppet:"name=>'x', value=>LIT"` (either item optional; LIT = integer, 'string', true, false) -/
+def litOf (s : String) : Option Lit :=
+  if s == "true" then some (.bool true) else if s == "false" then some (.bool false)
+  else if s.startsWith "'" && s.endsWith "'" && s.length ≥ 2 then
+    some (.str (String.ofList ((s.toList.drop 1).take (s.length - 2))))
+  else s.toInt?.map .int
+
+def tagItems (t : String) : Option FTag :=
+  let pre := "puppet:\""
+  let suf := "\""
+  if !(t.startsWith pre && t.endsWith suf && t.length ≥ pre.length + suf.length) then none else
+  let body := String.ofList ((t.toList.drop pre.length).take (t.length - pre.length - suf.length))
+  (body.splitOn ", ").foldlM (fun (acc : FTag) item =>
+    if item.startsWith "name=>" then
+      match litOf (item.drop 6).toString with
+      | some (.str n) => some { acc with attr := some n }
+      | _ => none
+    else if item.startsWith "value=>" then
+      (litOf (item.drop 7).toString).map fun d => { acc with dflt := some d }
+    else none) {}
+
+def goNameOK (n : String) : Bool :=
+  match n.toList with
+  | c :: _ => c.isUpper
+  | [] => false
+
+mutual
 partial def tyOf : Sexp → Option GoTy
   | .atom "string" => some .string
   | .atom "bool" => some .bool
@@ -16,7 +46,26 @@ partial def tyOf : Sexp → Option GoTy
   | .list [.atom "ptr", e] => (tyOf e).map .ptr
   | .list [.atom "map", k, v] => do let k' ← tyOf k; let v' ← tyOf v; pure (.map k' v')
   | .list [.atom "array", n, e] => do let n' ← n.nat?; let e' ← tyOf e; pure (.array n' e')
+  | .list (.atom "struct" :: fs) => fieldsOf fs
   | _ => none
+/-- `(Name T)`, `(Name T xTAG)`; an embedded field is `(emb Name T)` / `(emb Name T xTAG)` -/
+partial def fieldsOf : List Sexp → Option GoTy
+  | [] => some .snil
+  | f :: r => do
+      let (anon, n, t, tag) ← (match f with
+        | .list [.atom "emb", .atom n, t] => some (true, n, t, none)
+        | .list [.atom "emb", .atom n, t, tag] => some (true, n, t, some tag)
+        | .list [.atom n, t] => some (false, n, t, none)
+        | .list [.atom n, t, tag] => some (false, n, t, some tag)
+        | _ => none)
+      if !goNameOK n then none
+      let ft ← tyOf t
+      let tg ← (match tag with
+        | none => some ({} : FTag)
+        | some x => x.str?.bind tagItems)
+      let rest ← fieldsOf r
+      pure (.scons n { tg with anon := anon } ft rest)
+end
 
 partial def valOf : GoTy → Sexp → Option GoVal
   | .int _, e => e.int?.map .int
@@ -36,9 +85,36 @@ partial def valOf : GoTy → Sexp → Option GoVal
         | _ => none).map .map
   | .ptr _, .atom "nil" => some .nil
   | .ptr e, .list [.atom "p", x] => (valOf e x).map .ptr
+  | .snil, .list [.atom "st"] => some (.st [])
+  | .scons _ _ ft rest, .list (.atom "st" :: x :: xs) => do
+      let v ← valOf ft x
+      match ← valOf rest (.list (.atom "st" :: xs)) with
+      | .st vs => pure (.st (v :: vs))
+      | _ => none
   | _, _ => none
 
 def paren (xs : List String) : String := "(" ++ " ".intercalate xs ++ ")"
+
+/-- the order in which the harness registers the struct types of a type term (registerStructs: key, element, fields, then
+    the struct itself; a type already seen keeps its number) -/
+partial def regOrder (acc : List GoTy) : GoTy → List GoTy
+  | .slice e => regOrder acc e
+  | .ptr e => regOrder acc e
+  | .array _ e => regOrder acc e
+  | .map k v => regOrder (regOrder acc k) v
+  | .snil => if acc.contains .snil then acc else acc ++ [.snil]
+  | .scons n tg ft rest =>
+      let rec fields (acc : List GoTy) : GoTy → List GoTy
+        | .scons _ _ ft rest => fields (regOrder acc ft) rest
+        | _ => acc
+      let acc' := fields acc (.scons n tg ft rest)
+      if acc'.contains (.scons n tg ft rest) then acc' else acc' ++ [.scons n tg ft rest]
+  | _ => acc
+
+def objName (names : List GoTy) (S : GoTy) : String :=
+  match names.idxOf? S with
+  | some i => s!"T::S{i + 1}"
+  | none => "T::?"
 
 partial def tyStr : GoTy → String
   | .int w => s!"(int {w})" | .uint w => s!"(uint {w})" | .float w => s!"(float {w})"
@@ -46,6 +122,8 @@ partial def tyStr : GoTy → String
   | .slice e => paren ["slice", tyStr e] | .ptr e => paren ["ptr", tyStr e]
   | .map k v => paren ["map", tyStr k, tyStr v]
   | .array n e => paren ["array", toString n, tyStr e]
+  | .snil => "(struct)"
+  | .scons n _ ft rest => paren ["struct…", n, tyStr ft, tyStr rest]   -- only inside an interface{} value: not generated
 
 partial def goStr : GoVal → String
   | .int i => toString i | .flt b => toString b | .str s => hexOfString s | .bool b => boolStr b
@@ -55,67 +133,27 @@ partial def goStr : GoVal → String
   | .map es => paren ("m" :: es.map fun kv => paren [goStr kv.1, goStr kv.2])
   | .ptr v => paren ["p", goStr v]
   | .iface t v => paren ["i", tyStr t, goStr v]
+  | .st vs => paren ("st" :: vs.map goStr)
 
-partial def valStr : Val → String
+partial def valStr (names : List GoTy) : Val → String
   | .int i => s!"(i {i})" | .flt b => s!"(f {b})" | .str s => s!"(s {hexOfString s})" | .bool b => s!"(b {boolStr b})"
   | .undef => "(u)"
   | .bin _ bs => "(x x" ++ hexOfBytes (bs.map fun i => UInt8.ofNat i.toNat) ++ ")"
-  | .arr es => paren ("a" :: es.map valStr)
-  | .hsh es => paren ("h" :: es.map fun kv => paren [valStr kv.1, valStr kv.2])
+  | .arr es => paren ("a" :: es.map (valStr names))
+  | .hsh es => paren ("h" :: es.map fun kv => paren [valStr names kv.1, valStr names kv.2])
+  | .obj S _ g => paren ["o", objName names S, valStr names (.hsh (initHash (objFVs S g)))]
 
-partial def ptyStr : Ty → String
+partial def ptyStr (names : List GoTy) : Ty → String
   | .int lo hi => s!"(int {lo} {hi})" | .float w => s!"(float {w})" | .str => "str" | .bool => "bool"
-  | .array e => paren ["array", ptyStr e] | .hash k v => paren ["hash", ptyStr k, ptyStr v]
-  | .opt t => paren ["opt", ptyStr t] | .bin => "bin" | .any => "any"
+  | .array e => paren ["array", ptyStr names e] | .hash k v => paren ["hash", ptyStr names k, ptyStr names v]
+  | .opt t => paren ["opt", ptyStr names t] | .bin => "bin" | .any => "any"
+  | .obj S => paren ["obj", objName names S]
 
 /-- Go's float64 → float32 → float64 on bits (trusted: Lean's runtime uses the same IEEE conversion) -/
 def r32 (b : Nat) : Nat := (Float.ofBits b.toUInt64).toFloat32.toFloat.toBits.toNat
 
-/-- tag `puppet:"name=>'x', value=>LIT"` (either item optional; LIT = integer, 'string', true, false) -/
-def splitOn2 (s sep : String) : List String := (s.splitOn sep)
-
-def litOf (s : String) : Option Val :=
-  if s == "true" then some (.bool true) else if s == "false" then some (.bool false)
-  else if s.startsWith "'" && s.endsWith "'" && s.length ≥ 2 then
-    some (.str (String.ofList ((s.toList.drop 1).take (s.length - 2))))
-  else s.toInt?.map .int
-
-def tagItems (t : String) : Option (Option String × Option Val) :=
-  let pre := "puppet:\""
-  let suf := "\""
-  if !(t.startsWith pre && t.endsWith suf && t.length ≥ pre.length + suf.length) then none else
-  let body := String.ofList ((t.toList.drop pre.length).take (t.length - pre.length - suf.length))
-  (splitOn2 body ", ").foldlM (fun (acc : Option String × Option Val) item =>
-    if item.startsWith "name=>" then
-      match litOf (item.drop 6).toString with
-      | some (.str n) => some (some n, acc.2)
-      | _ => none
-    else if item.startsWith "value=>" then
-      (litOf (item.drop 7).toString).map fun d => (acc.1, some d)
-    else none) (none, none)
-
-def lowerFirst (goName : String) : Option String :=
-  match goName.toList with
-  | c :: r => some (String.ofList (c.toLower :: r))
-  | [] => none
-
-def fieldOf : Sexp → Option Field
-  | .list [.atom n, t] => do let ty ← tyOf t; let a ← lowerFirst n; pure { name := a, ty := ty }
-  | .list [.atom n, t, tag] => do
-      let ty ← tyOf t
-      let tg ← tag.str?
-      let (nm, d) ← tagItems tg
-      let a ← (match nm with | some x => some x | none => lowerFirst n)
-      pure { name := a, ty := ty, dflt := d }
-  | _ => none
-
-def zipVals : List Field → List Sexp → Option (List (Field × GoVal))
-  | [], [] => some []
-  | f :: fs, v :: vs => do let gv ← valOf f.ty v; let r ← zipVals fs vs; pure ((f, gv) :: r)
-  | _, _ => none
-
-def variantStr (name : String) (orig : List GoVal) : Option (List GoVal) → String
-  | some back => s!" | {name}=ok back={paren ("st" :: back.map goStr)} eq={boolStr ((back.map goStr) == (orig.map goStr))}"
+def variantStr (name : String) (orig : GoVal) : Option GoVal → String
+  | some back => s!" | {name}=ok back={goStr back} eq={boolStr (goStr back == goStr orig)}"
   | none => s!" | {name}=reported PCORE_ILLEGAL_ARGUMENTS"
 
 def isHsh : Val → Bool | .hsh _ => true | _ => false
@@ -124,30 +162,35 @@ def singleHash : List Val → Bool
   | [w] => isHsh w
   | _ => false
 
+/-- inside the model: modelled shape, well-typed value, every struct type derivable -/
+def inModel (ty : GoTy) (gv : GoVal) : Bool :=
+  Modelled ty && hasType ty gv && (structsIn ty).all structWF
+
 def exec : List Sexp → String
-  | [.atom "obj", .list (.atom "struct" :: fsx), .list (.atom "st" :: vsx)] =>
-    match fsx.mapM fieldOf with
+  | [.atom "obj", t, v] =>
+    match tyOf t with
     | none => "bad-op"
-    | some fs =>
-      match zipVals fs vsx with
+    | some S =>
+      match valOf S v with
       | none => "bad-op"
-      | some fvs =>
-        if fs.isEmpty || !(fvs.all fun fv => flatField fv.1 && hasType fv.1.ty fv.2) then "bad-op" else
+      | some gv =>
+        if !(isStruct S && S != .snil && inModel S gv) then "bad-op" else
+        let names := regOrder [] S
+        let fvs := objFVs S gv
         let ih := initHash fvs
         let full := fullHash fvs
         let attrs := attrOrder (·.1) fvs
         let afs := attrs.map (·.1)
-        let orig := fvs.map (·.2)
         let pos := attrs.map fieldVal
         let trim := trimDefaults afs pos
         let ambiguous (h : List (Val × Val)) := match attrs with
           | fv :: _ => inst (typeOf fv.1.ty) (.hsh h)
           | [] => false
-        valStr (.hsh ih)
-          ++ (if singleHash pos then "" else variantStr "pos" orig (newPos r32 fs pos))
-          ++ (if trim.length < pos.length && !singleHash trim then variantStr "postrim" orig (newPos r32 fs trim) else "")
-          ++ (if ambiguous ih then "" else variantStr "named" orig (newNamed r32 fs ih))
-          ++ (if ih.length != full.length && !ambiguous full then variantStr "full" orig (newNamed r32 fs full) else "")
+        valStr names (.hsh ih)
+          ++ (if singleHash pos then "" else variantStr "pos" gv (newPosS r32 S pos))
+          ++ (if trim.length < pos.length && !singleHash trim then variantStr "postrim" gv (newPosS r32 S trim) else "")
+          ++ (if ambiguous ih then "" else variantStr "named" gv (newNamedS r32 S ih))
+          ++ (if ih.length != full.length && !ambiguous full then variantStr "full" gv (newNamedS r32 S full) else "")
   | [.atom "refl", t, v] =>
     match tyOf t with
     | none => "bad-op"
@@ -155,13 +198,14 @@ def exec : List Sexp → String
       match valOf ty v with
       | none => "bad-op"
       | some gv =>
-        if !(Modelled ty && hasType ty gv) then "bad-op" else
+        if !inModel ty gv then "bad-op" else
+        let names := regOrder [] ty
         let w := wrap true ty gv
         let pt := typeOf ty
         let back := match reflectTo r32 ty w with
           | some b => s!"back={goStr b} eq={boolStr (goStr b == goStr gv)}"
           | none => "back=fault eq=f"
-        s!"{valStr w} | {ptyStr pt} | inst={boolStr (inst pt w)} | {back}"
+        s!"{valStr names w} | {ptyStr names pt} | inst={boolStr (inst pt w)} | {back}"
   | _ => "bad-op"
 
 end C18
